@@ -101,12 +101,13 @@ def wrap(v, ct):
 
 
 class Eval:
-    def __init__(self, env=None, call=None, deref=None, max_steps=20000, node_hook=None, store=None):
+    def __init__(self, env=None, call=None, deref=None, max_steps=20000, node_hook=None, store=None, stmt_hook=None):
         self.env = dict(env or {})       # decl id -> value
         self.call = call                 # f(name, [values], node) -> value
         self.deref = deref               # f(address, node) -> value
         self.store = store               # f(address, value, node): write through a pointer (`*p = v`, `p[i] = v`, `++*p`)
         self.node_hook = node_hook       # f(node, evaluator) -> value or NotImplemented (checked first)
+        self.stmt_hook = stmt_hook       # f(statement node, evaluator) -> True when it executed the statement itself
         self.steps = 0
         self.max_steps = max_steps
 
@@ -372,6 +373,8 @@ class Eval:
             raise Unknown("step bound exceeded", n)
         k = n.get("kind")
         ks = A.kids(n)
+        if self.stmt_hook is not None and self.stmt_hook(n, self) is True:
+            return
         if k == "CompoundStmt":
             i = 0
             while i < len(ks):
@@ -398,6 +401,15 @@ class Eval:
             for d in ks:
                 if d.get("kind") == "VarDecl":
                     init = [c for c in A.kids(d)]
+                    if init and A.strip_casts(init[-1]).get("kind") == "InitListExpr" and ("[" in (A.qtype(d) or "") or ctype(A.qtype(d))[0] not in ("int", "ptr", "float")):
+                        # an aggregate (table, struct): bound to what the hook makes of its initialiser, else left to be read
+                        # through the initialiser (const_aggregate) or by hooks
+                        r_ = self.node_hook(A.strip_casts(init[-1]), self) if self.node_hook is not None else NotImplemented
+                        if r_ is not NotImplemented:
+                            self.env[d["id"]] = r_
+                        else:
+                            self.env.pop(d["id"], None)
+                        continue
                     if init:
                         self.env[d["id"]] = wrap(self.ev(init[-1]), ctype(A.qtype(d))) if ctype(A.qtype(d))[0] in ("int", "ptr") else self.ev(init[-1])
                     else:
